@@ -268,7 +268,7 @@ func runSnapfail(rep *Report, replay string) {
 				}
 				// the model's prediction for this fault class
 				lines = append(lines, fmt.Sprintf("snapres 0 0 %d %d", b2i(w.failedInState), b2i(w.failedInCopy)))
-				want = append(want, fmt.Sprintf("rec=%v dfd=%d dtemp=%d dgo=%d err=%v", c.VerifRecording(), fdA-fdB, tmpA-tmpB, gorA-gorB, err != nil))
+				want = append(want, fmt.Sprintf("rec=%v dfd=%d dtemp=%d dgo=%d err=%v", c.VerifRecording(), fdA-fdB, tmpA-tmpB, goroutineDelta(gorB, gorA), err != nil))
 				if failed {
 					rep.DistinctNontrivial++
 				}
@@ -440,17 +440,36 @@ type countLogger struct{ n int64 }
 func (l *countLogger) Append(commit.Commit) error { atomic.AddInt64(&l.n, 1); return nil }
 
 // settledGoroutines: the number of goroutines once those that are merely on their way out have gone (a goroutine whose
-// function has returned is still counted for an instant); `expect` < 0: just let things settle briefly
+// function has returned is still counted for an instant). `expect` < 0: the baseline before a call — wait until two
+// readings half a millisecond apart agree (the wrapper goroutine of the previous call, the vacuum goroutine of a
+// collection just closed); otherwise wait up to 10 ms for the count to come back to `expect`.
 func settledGoroutines(expect int) int {
 	n := runtime.NumGoroutine()
-	for i := 0; i < 50 && n != expect; i++ {
-		if expect < 0 && i >= 2 {
-			break
+	if expect < 0 {
+		for i := 0; i < 40; i++ {
+			time.Sleep(500 * time.Microsecond)
+			m := runtime.NumGoroutine()
+			if m == n {
+				break
+			}
+			n = m
 		}
+		return n
+	}
+	for i := 0; i < 50 && n != expect; i++ {
 		time.Sleep(200 * time.Microsecond)
 		n = runtime.NumGoroutine()
 	}
 	return n
+}
+
+// goroutineDelta: goroutines a call left behind. A count that went *down* means a goroutine of something earlier ended
+// during the call; that is no leak of this call.
+func goroutineDelta(before, after int) int {
+	if after < before {
+		return 0
+	}
+	return after - before
 }
 
 func b2i(b bool) int {
